@@ -1,6 +1,6 @@
 SPECIFICATION Spec
 CONSTANTS
-  NSET = {1, 2, 3, 4, 6, 8, 9, 16}
+  NSET = {1, 2, 3, 4, 6, 8, 9, 16, 27}
   MAXD = 3
   BS = {2, 3, 4}
 INVARIANT AllB
